@@ -11,6 +11,7 @@ import Pandora.Model.C13Funcs
 import Pandora.Model.C13Multi
 import Pandora.Model.C13Jsonline
 import Pandora.Model.C13Grpc
+import Pandora.Model.C13Cfg
 
 set_option linter.unusedSimpArgs false
 
@@ -341,5 +342,60 @@ theorem grpcPassEnd_bridge (limit passes passNum ammoNum : Nat) (scanErr : Bool)
         · have h3' : ¬ ((ammoNum : Int) = 0) := by omega
           simp (disch := omega) [h1, h1', h2, h2', h3, h3', grpcEndCode, if_pos, if_neg]
   · simp [grpcEndCode]
+
+/-! ### round 4: `runFullScan` with `chosen_cases`, the plugin name of `parseConf`, the separator of `readCsv` -/
+
+/-- what one round of `runFullScan` does in front of `Scan`, as the model `ccMulti` / `jlArrayLoopCC` has it: the limit
+first, then "a complete pass delivered nothing" -/
+def fullScanHeadModel (guarded : Bool) (limit ammoNum passNum : Nat) : Int :=
+  if limit ≠ 0 ∧ ammoNum ≥ limit then 1 else if guarded ∧ ammoNum = 0 ∧ passNum > 0 then 2 else 0
+
+/-- the regenerated head of the loop is the model's, for all counters; `guarded` of the model = the decoder answers the
+`passCounter` assertion -/
+theorem fullScanHead_bridge (limit ammoNum passNum : Nat) (has : Bool) :
+    Gen.C13Src.fullScanHead limit ammoNum has passNum = fullScanHeadModel has limit ammoNum passNum := by
+  unfold Gen.C13Src.fullScanHead fullScanHeadModel
+  by_cases h1 : limit ≠ 0 ∧ ammoNum ≥ limit
+  · have h1' : ((limit : Int) ≠ 0 ∧ (ammoNum : Int) ≥ limit) := by omega
+    simp (disch := omega) [h1, h1', if_pos, if_neg]
+  · have h1' : ¬ ((limit : Int) ≠ 0 ∧ (ammoNum : Int) ≥ limit) := by omega
+    cases has
+    · simp (disch := omega) [h1, h1', if_pos, if_neg]
+    · by_cases h2 : ammoNum = 0 ∧ passNum > 0
+      · have h2' : ((ammoNum : Int) = 0 ∧ (passNum : Int) > 0) := by omega
+        simp (disch := omega) [h1, h1', h2, h2', if_pos, if_neg]
+      · have h2' : ¬ ((ammoNum : Int) = 0 ∧ (passNum : Int) > 0) := by omega
+        simp (disch := omega) [h1, h1', h2, h2', if_pos, if_neg]
+
+/-- every file decoder of the http provider answers the assertion `p.Decoder.(passCounter)` of `runFullScan` (from the
+types of the current source: the method set of `*<decoder>` holds the interface's methods with identical signatures) -/
+theorem passCounter_bridge : Gen.C13Src.passCounterDecoders.all (fun d => d.2) = true ∧
+    Gen.C13Src.passCounterDecoders.map (fun d => d.1) = ["uripostDecoder", "rawDecoder", "uriDecoder", "jsonlineDecoder"] := by
+  decide
+
+/-- the block behind a failed `Scan`, as `ccMulti` has it: a pass limit with nothing delivered is "no ammo", the two limit
+sentinels are the regular end, any other error is the run's error -/
+theorem fullScanAfterErr_bridge (ammoNum : Nat) (isPassLimit isAmmoLimit : Bool) :
+    Gen.C13Src.fullScanAfterErr ammoNum isPassLimit isAmmoLimit =
+      if ammoNum = 0 ∧ isPassLimit = true then 2 else if isAmmoLimit = true ∨ isPassLimit = true then 1 else 0 := by
+  unfold Gen.C13Src.fullScanAfterErr
+  cases isPassLimit <;> cases isAmmoLimit <;> by_cases h : ammoNum = 0 <;>
+    simp (disch := omega) [h, if_pos, if_neg] <;> omega
+
+/-- `ammoNum` of `runFullScan` counts delivered ammo only (what the limit and the "nothing delivered" test are about) -/
+theorem fullScanCounts_bridge : Gen.C13Src.fullScanCountsDelivered = true := by decide
+
+/-- `parseConf`: the name it hands on is empty only if the string it tested is - the registry's `expect(name != "")`
+cannot be reached with user data -/
+theorem parseConf_bridge (raw : Bytes) : Gen.C13Src.pcReturned raw = [] → Gen.C13Src.pcTested raw = [] := by
+  intro h
+  simpa [Gen.C13Src.pcReturned, Gen.C13Src.pcTested] using h
+
+/-- `readCsv`: where `delimiter[i]` is evaluated the index is inside the string, and the separator chosen is the model's -/
+theorem csvComma_bridge (delimiter : Bytes) :
+    (Gen.C13Src.csvCommaGuard delimiter → boundC Gen.C13Src.csvCommaIndex delimiter.length = .ok ()) ∧
+    (if Gen.C13Src.csvCommaGuard delimiter then indexC delimiter Gen.C13Src.csvCommaIndex else .ok 44) = csvComma true delimiter := by
+  cases delimiter <;>
+    simp [Gen.C13Src.csvCommaGuard, Gen.C13Src.csvCommaIndex, boundC, csvComma, indexC] <;> omega
 
 end Pandora.Bridge.C13
